@@ -326,7 +326,10 @@ Filter(name, recv, args) ==
     (IF AsStr(recv).ok THEN StringFilter(name, AsStr(recv).s, args) ELSE FUnspec)
   ELSE IF name \in NumericFilters THEN
     (LET x == AsNum(recv, TRUE)
-     IN  IF x.r = "num" THEN NumericFilter(name, x.v, args)
+         \* TLC integers are 32-bit: magnitudes beyond 10^6 are outside the modelled arithmetic
+         small(v) == ~IsNum(v) \/ (AbsI(NumN(v)) <= 1000000 /\ NumD(v) <= 10000)
+     IN  IF x.r = "num" /\ ~(small(x.v) /\ \A i \in 1..Len(args) : small(args[i])) THEN FUnspec
+         ELSE IF x.r = "num" THEN NumericFilter(name, x.v, args)
          ELSE IF x.r = "err" THEN FErr ELSE FUnspec)
   ELSE FUnspec
 =============================================================================
